@@ -169,6 +169,12 @@ func SetPoolMode(m int) {}
 // harness (hang / stack overflow candidate) instead of an inconclusive path.
 func BoundIsViolation() {}
 
+// StubJSONValues makes the engine replace encoding/json.Marshal of non-string
+// values (reflection, not executed symbolically) by the token 0, so that the
+// text AROUND the values (keys, order, separators) can still be checked. No
+// effect natively, where the real value JSON appears.
+func StubJSONValues() {}
+
 // Opaque reports whether the engine would treat s as an opaque string; always
 // false natively. Harnesses use it only to skip message text.
 func Opaque(s string) bool { return false }
